@@ -32,7 +32,7 @@ class Models:
         R(r"core::slice::<impl \[.*\]>::len$", self.m_len)
         R(r"core::slice::<impl \[.*\]>::is_empty$", lambda ip, fv, st, d, t, n, a, dty: I(0, 1))
         R(r"core::slice::<impl \[.*\]>::copy_from_slice$|clone_from_slice$", self.m_copy_from_slice)
-        R(r"ops::Index(Mut)?<core::ops::Range(Full|To|From|Inclusive)?<usize>>.*::index(_mut)?$", self.m_index_range)
+        R(r"ops::Index(Mut)?<core::ops::Range(Full|To<usize>|From<usize>|Inclusive<usize>|ToInclusive<usize>|<usize>)>.*::index(_mut)?$", self.m_index_range)
         R(r"core::array::<impl core::ops::Index(Mut)?<.*> for \[.*\]>::index(_mut)?$|core::slice::index::<impl core::ops::Index(Mut)?<.*> for \[.*\]>::index(_mut)?$", self.m_index_range)
         R(r"core::ops::Deref(Mut)?>::deref(_mut)?$|core::convert::AsRef<.*>>::as_ref$|core::convert::AsMut<.*>>::as_mut$|core::borrow::Borrow(Mut)?<.*>>::borrow(_mut)?$", self.m_identity_ref)
         R(r"core::clone::Clone>::clone$", self.m_clone)
@@ -48,7 +48,7 @@ class Models:
         # subtle
         R(r"<subtle::Choice as core::convert::From<u8>>::from$", self.m_choice_from)
         R(r"subtle::Choice::unwrap_u8$", self.m_choice_unwrap)
-        R(r"<bool as core::convert::From<subtle::Choice>>::from$|<subtle::Choice as core::convert::Into<bool>>::into$", self.m_choice_unwrap)
+        R(r"<bool as core::convert::From<subtle::Choice>>::from$|<subtle::Choice as core::convert::Into<bool>>::into$|impl core::convert::From<subtle::Choice> for bool>::from$", self.m_choice_unwrap)
         R(r"subtle::ConditionallyNegatable>::conditional_negate$", self.m_cond_negate)
         R(r"<subtle::Choice as core::ops::Not>::not$", self.m_choice_not)
         R(r"<subtle::Choice as core::ops::(BitAnd|BitOr|BitXor)>::(bitand|bitor|bitxor)$", lambda ip, fv, st, d, t, n, a, dty: ("st", (I(0, 1),)))
@@ -286,6 +286,13 @@ class Models:
                 return ("en", ((0, ()), (1, (elem(idx),)))), pack(I(cur[1], min(cur[2] + 1, end[2])), end)
             idx = I(max(cur[1], end[1] - 1), end[2] - 1)
             return ("en", ((0, ()), (1, (elem(idx),)))), pack(cur, I(max(cur[1], end[1] - 1), end[2]))
+        if k == "vecvals":
+            v = it[2]
+            elem = v[1] if v[1] is not None else TOP
+            if v[3] == 0:
+                return ("en", ((0, ()),)), it
+            # owning iterator over a vector summary: any number of remaining elements
+            return ("en", ((0, ()), (1, (elem,)))), ("it", "vecvals", ("vec", v[1], 0, v[3]))
         if k == "zip":
             ia, na = self.step(ip, st, it[2])
             ib, nb = self.step(ip, st, it[3])
@@ -511,6 +518,14 @@ class Models:
         ln = ip.length_of(st, base)
         lo = hi = None
         if "RangeFull" in n:
+            if base[0] == "ref":
+                tgt = ip.read_path(st.frames[base[1]].get(base[2], TOP), base[3])
+                if tgt[0] in ("vec", "arr"):
+                    return ip.unsize(st, base)
+                if tgt[0] == "sl":
+                    return tgt
+            if base[0] == "sl":
+                return base
             lo, hi = I(0), ln
         elif "RangeTo<" in n or "RangeToInclusive" in n:
             lo, hi = I(0), rng[1][0] if rng[0] == "st" else None
